@@ -317,8 +317,14 @@ def check_C15(ctx):
     g = ctx.bin(GRID)
     jobs = [Job(g, "TestC15", name="C15:instances/" + mode, timeout=1200, env={"VERIF_PARAM_MODE": mode, "GOMAXPROCS": "4"}) for mode in ("zstd", "uncompressed")]
     jobs += e2cache_jobs(ctx, "C15", 4 if th else 3, 1500 if th else 300, 8 if th else 2, proxies=("0",))
+    m = ctx.bin(".")
+    for mangle in ("1", "0"):
+        for asset in ("0", "1"):
+            for novalid in (("0", "1") if th else ("0",)):
+                jobs.append(Job(m, "TestVfC15Main", name="C15main:mangle=%s,asset=%s,novalid=%s" % (mangle, asset, novalid), timeout=600,
+                                env={"VERIF_PARAM_MANGLE": mangle, "VERIF_PARAM_ASSET": asset, "VERIF_PARAM_NOVALID": novalid}))
     return dict(level="model_checking", jobs=jobs,
-                rule="explicit-state BFS over operation sequences on a real disk cache in which the CAS, AC and RAW key spaces collide on ONE hash (uploads good and failing, overwrites, evictions, lookups, zstd reads), compared with three independent reference maps on every transition; plus the full product of 12 instance names (empty, nested, containing ac/cas/blobs/uploads segments, unicode, spaces, case, trailing slash) x store via gRPC or HTTP x read via gRPC or HTTP under every instance name x mangling on/off x HTTP validation on/off; server level: every HTTP action-cache lookup repeated by a client that accepts zstd (must answer identically, never compressed); one hash stored as CAS blob, validated and raw action result in six orders; 20 instance names incl. eight longer than 64 bytes that agree in their first 62/63/64/100 bytes; the empty blob's hash as an action key (never stored => absent on HEAD/GET/gRPC; after an upload HEAD agrees with GET; CAS empty blob undisturbed)",
+                rule="process level: servers started by main.run() (flags -> config -> both front ends on unix sockets) for mangling on/off x remote asset API on/off (x HTTP validation off, thorough): every (write front end, write instance) x (read front end, read instance) pair over 10 instance names; explicit-state BFS over operation sequences on a real disk cache in which the CAS, AC and RAW key spaces collide on ONE hash (uploads good and failing, overwrites, evictions, lookups, zstd reads), compared with three independent reference maps on every transition; plus the full product of 12 instance names (empty, nested, containing ac/cas/blobs/uploads segments, unicode, spaces, case, trailing slash) x store via gRPC or HTTP x read via gRPC or HTTP under every instance name x mangling on/off x HTTP validation on/off; server level: every HTTP action-cache lookup repeated by a client that accepts zstd (must answer identically, never compressed); one hash stored as CAS blob, validated and raw action result in six orders; 20 instance names incl. eight longer than 64 bytes that agree in their first 62/63/64/100 bytes; the empty blob's hash as an action key (never stored => absent on HEAD/GET/gRPC; after an upload HEAD agrees with GET; CAS empty blob undisturbed)",
                 assumptions=E2_ASSUME + ["instance names without leading/trailing slash (REAPI-conformant); an HTTP path with an empty segment is redirected by net/http before it reaches the handler"])
 
 
@@ -342,7 +348,7 @@ def check_C18(ctx):
             jobs.append(Job(g, "TestC18", name="C18:write/%s#%d" % (mode, sh), timeout=3600, env={"VERIF_PARAM_MODE": mode, "GOMAXPROCS": "4", "VERIF_SHARD": "%d/%d" % (sh, shards)}))
         jobs.append(Job(g, "TestC18Proxy", name="C18:proxy/" + mode, timeout=3600, env={"VERIF_PARAM_MODE": mode, "GOMAXPROCS": "4"}))
     return dict(level="exploration", jobs=jobs,
-                rule="max_blob_size L in {1, 4 KiB, 1 MiB} (thorough: 11 limits incl. 2, 100, 4 KiB+-1, 64 KiB, 1 MiB+-1, 2 MiB+1) x item size {L-1, L, L+1, 4L} (thorough: 1, L/2, L-1, L, L+1, L+2, 2L, 4L+1) x 13 write paths x {incompressible, highly compressible} content (so that the transport size differs from the logical size) x storage mode; max_proxy_blob_size P in {100, 4096} x backend object {P-1, P, P+1} x {Get size known/unknown, GetZstd, Contains known/unknown, FindMissingBlobs, AC dependency check}; GetCapabilities; the action-cache entry itself as the item (serialised ActionResult of L-1, L, L+1, 4L bytes via gRPC and HTTP); a refused ac_* upload must not leave its ActionResult behind; oversize items that are ALREADY present (directory filled without a limit, restarted with max_blob_size) through every CAS write path; non-trivial = distinct cells on both sides of each limit",
+                rule="backend part: objects of P-1, P, P+1, 2P bytes, incompressible and compressible (stored object smaller than the limit although the blob is larger); max_blob_size L in {1, 4 KiB, 1 MiB} (thorough: 11 limits incl. 2, 100, 4 KiB+-1, 64 KiB, 1 MiB+-1, 2 MiB+1) x item size {L-1, L, L+1, 4L} (thorough: 1, L/2, L-1, L, L+1, L+2, 2L, 4L+1) x 13 write paths x {incompressible, highly compressible} content (so that the transport size differs from the logical size) x storage mode; max_proxy_blob_size P in {100, 4096} x backend object {P-1, P, P+1} x {Get size known/unknown, GetZstd, Contains known/unknown, FindMissingBlobs, AC dependency check}; GetCapabilities; the action-cache entry itself as the item (serialised ActionResult of L-1, L, L+1, 4L bytes via gRPC and HTTP); a refused ac_* upload must not leave its ActionResult behind; oversize items that are ALREADY present (directory filled without a limit, restarted with max_blob_size) through every CAS write path; non-trivial = distinct cells on both sides of each limit",
                 assumptions=["in-process servers; the disk cache and both front ends are configured with the same limit, as main() does"])
 
 
@@ -357,7 +363,7 @@ def check_C20(ctx):
     jobs.append(Job(ctx.bin("./cache/azblobproxy"), "TestVfC20Names", name="C20:names/azblob", timeout=300))
     jobs.append(Job(ctx.bin("./cache/azblobproxy"), "TestVfC20Wire", name="C20:wire-names/azblob", timeout=300))
     return dict(level="exploration", jobs=jobs,
-                rule="(a) files laid out by the harness's independent implementation of the published v2 format: chunk size {4 KiB, 64 KiB, 1 MiB, 3 MiB} x blob sizes around each x encoder {klauspost fastest/default/best, libzstd 1/19} x content kind x suffix shape, identity-compression v2 files, raw .v1 files, AC files with arbitrary suffixes; served by this build in every (storage mode, zstd implementation) through all read paths at boundary offsets; (b) every file this build writes in every configuration (8 sizes x 3 content kinds x 6 write paths) parsed by the independent reader with both zstd decoders and as a plain zstd stream, file names checked against the published naming; (c) a golden directory and name tables produced by the pinned release: read back in all four configurations, file / HTTP URL / gRPC resource / S3 / Azure object names compared tuple by tuple and checked for injectivity; chunk encoders: klauspost one-shot fastest/default/best, libzstd levels 1 and 19, and three STREAMING encoders (frames that declare a window: default, 32 MiB window + checksum, best + 1 KiB window); azblobproxy wire names: requests observed at a local fake of the Azure endpoint (HEAD, GET, PUT use one name per tuple, injective, equal to the golden table of the pinned tree)",
+                rule="(a) files laid out by the harness's independent implementation of the published v2 format: chunk size {4 KiB, 64 KiB, 1 MiB, 3 MiB} x blob sizes around each x encoder {klauspost fastest/default/best, libzstd 1/19} x content kind x suffix shape, identity-compression v2 files, raw .v1 files, AC files with arbitrary suffixes; served by this build in every (storage mode, zstd implementation) through all read paths at boundary offsets; (b) every file this build writes in every configuration (8 sizes x 3 content kinds x 6 upload paths, plus files written by a backend fetch with size known / unknown / HTTP GET) parsed by the independent reader with both zstd decoders and as a plain zstd stream, file names checked against the published naming; (c) a golden directory and name tables produced by the pinned release: read back in all four configurations, file / HTTP URL / gRPC resource / S3 / Azure object names compared tuple by tuple and checked for injectivity; chunk encoders: klauspost one-shot fastest/default/best, libzstd levels 1 and 19, and three STREAMING encoders (frames that declare a window: default, 32 MiB window + checksum, best + 1 KiB window); azblobproxy wire names: requests observed at a local fake of the Azure endpoint (HEAD, GET, PUT use one name per tuple, injective, equal to the golden table of the pinned tree)",
                 assumptions=["golden files were produced once by the pinned commit (plus the hook commit) with VERIF_REPO pointing at a worktree of it; they are committed under /verif/golden",
                              "the independent reader/writer (go/vlib/fmt2.go) is written from the format description in casblob.go's header comment and README"])
 
@@ -378,7 +384,7 @@ def check_C17(ctx):
     jobs += e1_jobs(ctx, "C17", scen, 3 if th else 2, 8 if th else 6, 1500 if th else 400)
     jobs.append(Job(ctx.bin(GRID), "TestC17", name="C17:status-mapping", timeout=600))
     return dict(level="model_checking", jobs=jobs,
-                rule="(1) explicit-state BFS on the real SizedLRU with hard limit in {unset, max, max+1, max+2 blocks}: admission <=> size<=max and reserved+size<=max and accounted+backlog+size<=limit, refused => nothing changed; (2) all <=2/3-preemption schedules of two uploads + an existence check into a full cache with the background remover (and its backlog counter) under scheduler control, so every amount of deletion lag occurs; (3) every write path against a full cache at server level for the 507 / RESOURCE_EXHAUSTED mapping",
+                rule="FetchBlob with several mirrors (dead mirror last / first, two good mirrors) among the write paths of the status-mapping part; (1) explicit-state BFS on the real SizedLRU with hard limit in {unset, max, max+1, max+2 blocks}: admission <=> size<=max and reserved+size<=max and accounted+backlog+size<=limit, refused => nothing changed; (2) all <=2/3-preemption schedules of two uploads + an existence check into a full cache with the background remover (and its backlog counter) under scheduler control, so every amount of deletion lag occurs; (3) every write path against a full cache at server level for the 507 / RESOURCE_EXHAUSTED mapping",
                 assumptions=E2_ASSUME[:2] + E1_ASSUME + ["E1 here also makes the backlog counter's atomic operations scheduling points"])
 
 
